@@ -8,6 +8,7 @@ func (c *Conversation) processDisconnectedTLV(t tlv, x dataMessageExtra) (toSend
 	defer c.signalSecurityEventIf(previousMsgState == encrypted, GoneInsecure)
 	c.lastMessageStateChange = time.Time{}
 	c.msgState = finished
+	c.resend.forget()
 	c.smp.wipe()
 	c.ake.wipe(true)
 	c.ake = nil
